@@ -49,6 +49,8 @@ def make_class(W, with_lock, gsusp, state, lock_susp=0):
 
             data = A.cached_property(getter)
 
+    if P("falsy", False):  # instances that are falsy (e.g. empty containers)
+        Res.__len__ = lambda self: 0
     return Res, locks
 
 
@@ -289,6 +291,7 @@ def jobs(tier):
 
     for o0 in range(6):
         add("h_hist", L=(4 if q else 5), o0=o0)
+    add("h_hist", L=3, falsy=True)
     for lock in (True, False):
         add("h_conc", T=2, GSUSP=1, lock=lock)
         add("h_conc", T=2, GSUSP=2, lock=lock)
